@@ -73,6 +73,15 @@ func coResume(L *LState) int {
 		L.Push(LString(msg))
 		return 2
 	}
+	if th.stack.IsEmpty() {
+		// the body was a Go function that yielded: nothing is left to run, so it
+		// ends and returns the values it is resumed with
+		th.kill()
+		if !th.wrapped {
+			L.Insert(LTrue, 2)
+		}
+		return L.GetTop() - 1
+	}
 	th.Parent = L
 	L.G.CurrentThread = th
 	if !th.isStarted() {
